@@ -89,7 +89,11 @@ CapItem(s, cx) ==
 CapSeq(s, cx) == LET n == 2 + Pick(s, 5, 3) IN SeqE([j \in 1..n |-> CapItem(H(s, 10 + j), cx)])
 
 GenGrammar(s, cx0, depth) ==
-  IF cx0.capnull /\ Pick(s, 33, 3) = 0
+  IF FAMILY = "reuse" /\ Pick(s, 37, 2) = 0
+  THEN NumberActions(Prune([rules |-> <<[name |-> "A", body |-> SeqE(<<Star(AltE(<<Ref("B"), Dot>>)), Not(Dot)>>)],
+                                         [name |-> "B", body |-> GenE(H(s, 38), depth - 1, [cx0 EXCEPT !.self = 2, !.n = 3])],
+                                         [name |-> "C", body |-> GenE(H(s, 39), depth - 1, [cx0 EXCEPT !.self = 3, !.n = 3])]>>]))
+  ELSE IF cx0.capnull /\ Pick(s, 33, 3) = 0
   THEN NumberActions([rules |-> <<[name |-> "A", body |-> IF Pick(s, 34, 2) = 0 THEN CapSeq(s, cx0) ELSE AltE(<<CapSeq(H(s, 35), cx0), CapSeq(H(s, 36), cx0)>>)]>>])
   ELSE
   LET n == 1 + Pick(s, 31, cx0.maxrules)
@@ -364,6 +368,11 @@ StringsOrdered(alpha, n) ==
                      Append(last[((k - 1) \div Len(alpha)) + 1], alpha[((k - 1) % Len(alpha)) + 1])]
        IN prev \o ext
 
+\* a fixed scenario that reproduces known finding F12-2 (more than 65535 tokens under uint16) in every run of the reuse family
+F122Grammar == NumberActions([rules |-> <<[name |-> "A", body |-> SeqE(<<Star(AltE(<<Ref("B"), Dot>>)), Not(Dot)>>)],
+                                          [name |-> "B", body |-> Ref("C")],
+                                          [name |-> "C", body |-> SeqE(<<AltE(<<Chr(99), Dot, Chr(98)>>), Act(0)>>)]>>])
+
 (* ---------- sentences: random derivations of the grammar read as a CFG ------------------- *)
 \* (ordered choice and lookahead are ignored; the result is merely a string that is likely to be
 \* accepted or to fail late, which is what exercises deep paths of the parser)
@@ -445,7 +454,12 @@ Inputs(s, G) ==
       B == BodyMap(Core(G))
       sent == [j \in 1..NSENT |-> Trunc(SentenceInput(B, G.rules[1].name, H(s, 500 + j), Fam.extraAlpha), 12)]
       all == base \o extra \o sent
-  IN [k \in 1..Len(all) |-> [r |-> all[k]]]
+      \* long inputs (reuse family): a sentence of the grammar repeated until about 9 000 and 20 000 runes
+      nz == SelectSeq(sent, LAMBDA x : Len(x) > 0)
+      unit == IF nz = <<>> THEN <<97>> ELSE nz[1]
+      long == IF FAMILY = "reuse" THEN <<[rep |-> unit, n |-> 9000 \div Len(unit)],
+                                         [rep |-> unit, n |-> (IF G = F122Grammar THEN 30000 ELSE 20000) \div Len(unit)]>> ELSE <<>>
+  IN [k \in 1..Len(all) |-> [r |-> all[k]]] \o long
 
 \* byte-level inputs: concatenations of chunks (valid and invalid UTF-8)
 Chunks == << <<97>>, <<0>>, <<255>>, <<195, 169>>, <<195>>, <<240, 159, 152, 128>>, <<244, 143, 191, 191>>, <<237, 160, 128>>,
@@ -470,7 +484,8 @@ Plan(G) ==
   (IF Fam.memoOff THEN <<PlanEntry("", FALSE, 0, "uint32", FALSE)>> ELSE <<>>) \o
   (IF Fam.entries THEN [k \in 1..(Len(G.rules) - 1) |-> PlanEntry(G.rules[k + 1].name, TRUE, 0, "uint32", TRUE)] ELSE <<>>)
 
-Candidate(n) == IF FAMILY = "switch" THEN GenSwitch(H(H(SEED, n), n \div 1499), Fam.cx)
+Candidate(n) == IF FAMILY = "reuse" /\ n = 1 THEN F122Grammar
+                ELSE IF FAMILY = "switch" THEN GenSwitch(H(H(SEED, n), n \div 1499), Fam.cx)
                 ELSE IF FAMILY = "memo" THEN GenMemo(H(H(SEED, n), n \div 1499), Fam.cx)
                 ELSE IF FAMILY = "diag" THEN GenDiag(H(H(SEED, n), n \div 1499), Fam.cx)
                 ELSE GenGrammar(H(H(SEED, n), n \div 1499), Fam.cx, Fam.depth)
@@ -481,8 +496,8 @@ Scenario(n) ==
    optsets |-> Fam.optsets,
    inputs |-> IF FAMILY = "diag" THEN <<>> ELSE IF FAMILY = "bytes" THEN ByteInputs(H(SEED, n + 17)) ELSE Inputs(H(SEED, n + 17), G),
    plan |-> IF FAMILY = "diag" THEN <<>> ELSE Plan(G),
-   hist |-> IF FAMILY = "diag" THEN <<>> ELSE Hists(H(SEED, n + 29), Len(Inputs(H(SEED, n + 17), G))),
-   inter |-> IF FAMILY = "diag" THEN <<>> ELSE Inters(H(SEED, n + 31), Len(Inputs(H(SEED, n + 17), G))),
+   hist |-> IF FAMILY = "diag" THEN <<>> ELSE Hists(H(SEED, n + 29), Len(Inputs(H(SEED, n + 17), G)) - (IF FAMILY = "reuse" THEN 2 ELSE 0)),
+   inter |-> IF FAMILY = "diag" THEN <<>> ELSE Inters(H(SEED, n + 31), Len(Inputs(H(SEED, n + 17), G)) - (IF FAMILY = "reuse" THEN 2 ELSE 0)),
    conc |-> IF FAMILY = "inst" /\ "GEN_CONC" \in DOMAIN IOEnv THEN atoi(IOEnv.GEN_CONC) ELSE 0,
    collect |-> [toks |-> Fam.collect.toks, exec |-> Fam.collect.exec, ast |-> Fam.collect.ast, msg |-> Fam.collect.msg,
                 evs |-> ("GEN_EVS" \in DOMAIN IOEnv /\ IOEnv.GEN_EVS = "1")], allu |-> FAMILY = "reuse", norun |-> FAMILY = "diag", actstyle |-> Style(G).act]
